@@ -1,5 +1,284 @@
 import RV.Lemmas.DepSync
+/-!
+# C17 — partition-style Deployment scaling respects partition, surge and availability
+
+`s` ranges over *all* abstract states (any replicas, any int/percent/malformed partition and
+fenceposts, any number of old ReplicaSets of any sizes, any status numbers); `post s` is the
+state after one `syncDeployment` of the model `RV.DepSync` (tied to the Go code by suite
+"depsync").  `inv` is the inductive invariant `I`.  The clause predicates are the `Bool`
+functions of `RV.Oracle.C17`, the same ones the driver evaluates on the implementation's output.
+-/
 namespace RV.Props.C17
 open RV.Arith RV.DepSync RV.Oracle.C17
-theorem placeholder : (1 : Nat) = 1 := rfl
+
+/-- **C17 (ii)** a sync never lowers the old ReplicaSets' total below what the partition reserves
+    for them: `oldTotal' ≥ min(oldTotal, replicas − max(limit, new'))`. -/
+theorem c17_ii (s : State) (h : inv s = true) : clauseII s (post s) = true := by
+  unfold clauseII
+  cases hsc : inScope s
+  · simp
+  · simp only [Bool.not_true, Bool.false_or, decide_eq_true_eq]
+    obtain ⟨nw, _, _, hc⟩ := post_summary s hsc
+    have ro := reconcileOld_facts s s.olds nw (inv_olds s h)
+    simp only [oldTotal, newSpec, reserve]
+    rcases hc with ⟨rn, hn, ho, _⟩ | ⟨hn, ho, _⟩
+    · rw [ho]; omega
+    · rw [hn, ho]; simp only [optSpec]; omega
+
+
+/-- **C17 (ii′)** when the old total is positive but below the reserve and the sync leaves the new
+    RS alone, the old total is raised exactly to the reserve (`scaleUpOldReplicaSets`). -/
+theorem c17_ii_up (s : State) (h : inv s = true) : clauseIIup s (post s) = true := by
+  unfold clauseIIup
+  cases hsc : inScope s
+  · simp
+  · simp only [Bool.true_and, Bool.or_eq_true, Bool.not_eq_true', Bool.and_eq_false_iff,
+      decide_eq_false_iff_not, decide_eq_true_eq]
+    obtain ⟨nw, h1, h2, hc⟩ := post_summary s hsc
+    have ro := reconcileOld_facts s s.olds nw (inv_olds s h)
+    have hR := inv_replicas s h
+    have hl := limit_bounds s hR
+    have hcs := created_size s h
+    have tg := newTarget_ge s (sumSpec s.olds) nw.spec hl.2
+    simp only [oldTotal, newSpec, reserve]
+    rcases hc with ⟨rn, hn, ho, hs, _, _, hne⟩ | ⟨hn, ho, _⟩
+    · rw [hn, ho]; simp only [optSpec]
+      cases hnew : s.new with
+      | none =>
+        have := h2 hnew
+        simp only [optSpec]; omega
+      | some r =>
+        have := h1 r hnew
+        simp only [optSpec]; omega
+    · rw [hn, ho]; simp only [optSpec]
+      cases hnew : s.new with
+      | none =>
+        have := h2 hnew
+        simp only [optSpec]; omega
+      | some r =>
+        have := h1 r hnew
+        simp only [optSpec]; omega
+
+/-- **C17 (iv, budget)** old pods removed by one sync ≤ unhealthy old pods (cleaned first) plus
+    `available − (replicas − maxUnavailable)`. -/
+theorem c17_iv_budget (s : State) (h : inv s = true) : clauseIVbudget s (post s) = true := by
+  unfold clauseIVbudget
+  cases hsc : inScope s
+  · simp
+  · simp only [Bool.not_true, Bool.false_or, decide_eq_true_eq]
+    obtain ⟨nw, h1, h2, hc⟩ := post_summary s hsc
+    have ro := reconcileOld_facts s s.olds nw (inv_olds s h)
+    have u0 : 0 ≤ unhealthy s.olds := sumBy_nonneg _ _ (fun x _ => by omega)
+    simp only [oldTotal, availTotal, minAvailable, unhealthyOld]
+    have hu : unhealthy s.olds = sumBy (fun r => max 0 (r.spec - r.avail)) s.olds := rfl
+    rcases hc with ⟨rn, hn, ho, _⟩ | ⟨hn, ho, _⟩
+    · rw [ho]; omega
+    · rw [ho]
+      cases hnew : s.new with
+      | none => have := h2 hnew; simp only [optAvail]; omega
+      | some r => have := h1 r hnew; simp only [optAvail]; omega
+
+
+/-- `stale` unfolded -/
+theorem not_stale (s : State) (h : stale s = false) :
+    (∀ r ∈ s.olds, r.avail ≤ r.spec) ∧ (∀ r, s.new = some r → r.avail ≤ r.spec) := by
+  simp only [stale, List.any_eq_false, List.mem_append, decide_eq_true_eq, Int.not_lt] at h
+  refine ⟨fun r hr => ?_, fun r hr => ?_⟩
+  · have := h r (Or.inl hr); omega
+  · have := h r (Or.inr (by simp [hr])); omega
+
+/- **C17 (iv), full strength** — `∀ s, inv s → clauseIV s (post s)` — is FALSE for the unchanged code:
+   see `c17_iv_witness` (known finding C17-F2, guard `stale`). -/
+
+/-- **C17 (iv), partial** with fresh ReplicaSet statuses (no RS reports more available pods than its
+    spec keeps) a sync never leaves fewer than `min(available now, replicas − maxUnavailable)` pods
+    available. -/
+theorem c17_iv_partial (s : State) (h : inv s = true) (hg : stale s = false) :
+    clauseIV s (post s) = true := by
+  unfold clauseIV
+  cases hsc : inScope s
+  · simp
+  · simp only [Bool.not_true, Bool.false_or, decide_eq_true_eq]
+    obtain ⟨nw, h1, h2, hc⟩ := post_summary s hsc
+    have hok := inv_olds s h
+    have ro := reconcileOld_facts s s.olds nw hok
+    have hR := inv_replicas s h
+    have hl := limit_bounds s hR
+    have hcs := created_size s h
+    have hu := maxUnavailV_bounds s h
+    have tg := newTarget_ge s (sumSpec s.olds) nw.spec hl.2
+    obtain ⟨f1, f2⟩ := not_stale s hg
+    have k1 := kept_eq_avail s.olds f1
+    have k0 : 0 ≤ sumBy keptAvail s.olds := by rw [k1]; exact sumAvail_nonneg hok
+    simp only [floorAvail, minAvailable]
+    rcases hc with ⟨rn, hn, ho, hs, ha, _, hne⟩ | ⟨hn, ho, _⟩
+    · rw [hn, ho]
+      cases hnew : s.new with
+      | none =>
+        have := h2 hnew
+        simp only [keptAvail]; omega
+      | some r =>
+        have := h1 r hnew
+        have := f2 r hnew
+        have := (rsOk_iff r).mp (inv_new s h r hnew)
+        simp only [keptAvail]; omega
+    · rw [hn, ho]
+      cases hnew : s.new with
+      | none =>
+        have := h2 hnew
+        simp only [keptAvail]; omega
+      | some r =>
+        have := h1 r hnew
+        have := f2 r hnew
+        simp only [keptAvail]; omega
+
+
+/- **C17 (i) and (iii), full strength** — `∀ s, inv s → clauseI s (post s)` / `clauseIII s (post s)` — are
+   FALSE for the unchanged code: see `c17_i_witness`, `c17_iii_witness` (known findings C17-F1a/b,
+   guard `lowerBound`: `NewRSReplicasLowerBound` creates the new RS with 1 replica when maxSurge = 0). -/
+
+/-- **C17 (i), partial** outside the creation lower-bound region: while old pods exist, a sync never
+    raises the new RS above `max(current size, partition limit)`. -/
+theorem c17_i_partial (s : State) (h : inv s = true) (hg : lowerBoundRegion s = false) :
+    clauseI s (post s) = true := by
+  unfold clauseI
+  cases hsc : inScope s
+  · simp
+  · simp only [Bool.true_and, Bool.or_eq_true, Bool.not_eq_true', decide_eq_false_iff_not,
+      decide_eq_true_eq]
+    by_cases hpos : 0 < oldTotal s
+    · right
+      obtain ⟨nw, h1, h2, hc⟩ := post_summary s hsc
+      have hR := inv_replicas s h
+      have hl := limit_bounds s hR
+      have tl := newTarget_le s (sumSpec s.olds) nw.spec hpos
+      simp only [oldTotal, newSpec] at *
+      rcases hc with ⟨rn, hn, _, hs, _⟩ | ⟨hn, _⟩
+      · rw [hn]
+        cases hnew : s.new with
+        | none =>
+          have := h2 hnew
+          have := (created_noLB s h hnew hg).1 hpos
+          simp only [optSpec]; omega
+        | some r =>
+          have := h1 r hnew
+          simp only [optSpec]; omega
+      · rw [hn]
+        cases hnew : s.new with
+        | none =>
+          have := h2 hnew
+          have := (created_noLB s h hnew hg).1 hpos
+          simp only [optSpec]; omega
+        | some r =>
+          have := h1 r hnew
+          simp only [optSpec]; omega
+    · left; exact hpos
+
+/-- **C17 (i), inside the lower-bound region** the excess is at most one pod: a created new RS has
+    at most `max(limit, 1)` replicas (while old pods exist). -/
+theorem c17_i_lowerBound (s : State) (h : inv s = true) (hsc : inScope s = true) (hn : s.new = none)
+    (hpos : 0 < oldTotal s) : newSpec (post s) ≤ max (limit s) 1 := by
+  obtain ⟨nw, h1, h2, hc⟩ := post_summary s hsc
+  have hR := inv_replicas s h
+  have hl := limit_bounds s hR
+  have tl := newTarget_le s (sumSpec s.olds) nw.spec hpos
+  have c := created_LB s h
+  have := h2 hn
+  simp only [oldTotal, newSpec] at *
+  simp only [hpos, if_true] at c
+  rcases hc with ⟨rn, hn', _, hs, _⟩ | ⟨hn', _⟩
+  · rw [hn']; simp only [optSpec]; omega
+  · rw [hn']; simp only [optSpec]; omega
+
+/-- **C17 (i′)** with no old pods the new RS is brought to `replicas` (nothing is being rolled). -/
+theorem c17_i0 (s : State) (h : inv s = true) : clauseI0 s (post s) = true := by
+  unfold clauseI0
+  cases hsc : inScope s
+  · simp
+  · simp only [Bool.true_and, Bool.or_eq_true, Bool.not_eq_true', decide_eq_false_iff_not,
+      decide_eq_true_eq]
+    by_cases hz : oldTotal s = 0
+    · right
+      obtain ⟨nw, h1, h2, hc⟩ := post_summary s hsc
+      have hR := inv_replicas s h
+      have cs := created_size s h
+      simp only [oldTotal, newSpec] at *
+      have tz := newTarget_zero_old s nw.spec
+      rw [hz] at hc
+      rcases hc with ⟨rn, hn, _, hs, _⟩ | ⟨hn, _, he⟩
+      · rw [hn]; simp only [optSpec]; omega
+      · rw [hn]; simp only [optSpec]; omega
+    · left; exact hz
+
+/-- **C17 (iii), partial** outside the creation lower-bound region: whenever a sync raises the new
+    RS, old total + new size ≤ replicas + maxSurge. -/
+theorem c17_iii_partial (s : State) (h : inv s = true) (hg : lowerBoundRegion s = false) :
+    clauseIII s (post s) = true := by
+  unfold clauseIII
+  cases hsc : inScope s
+  · simp
+  · simp only [Bool.true_and, Bool.or_eq_true, Bool.not_eq_true', decide_eq_false_iff_not,
+      decide_eq_true_eq]
+    by_cases hup : newSpec s < newSpec (post s)
+    · right
+      obtain ⟨nw, h1, h2, hc⟩ := post_summary s hsc
+      have hs0 := maxSurgeV_nonneg s h
+      have ho := sumSpec_nonneg (inv_olds s h)
+      simp only [oldTotal, newSpec] at *
+      rcases hc with ⟨rn, hn, _, hs, _, _, hne⟩ | ⟨hn, _, he⟩
+      · rw [hn] at hup ⊢
+        cases hnew : s.new with
+        | none =>
+          have e := h2 hnew
+          have c := (created_noLB s h hnew hg).2
+          have cs := created_size s h
+          by_cases hlt : nw.spec < newTarget s (sumSpec s.olds) nw.spec
+          · have := newTarget_surge s _ _ ho hs0 hlt
+            simp only [optSpec]; omega
+          · have hR := inv_replicas s h
+            have tg := newTarget_ge s (sumSpec s.olds) nw.spec (limit_bounds s hR).2
+            rw [hnew] at hup
+            simp only [optSpec] at hup ⊢
+            omega
+        | some r =>
+          have e := h1 r hnew
+          rw [hnew] at hup
+          simp only [optSpec] at hup ⊢
+          have := newTarget_surge s (sumSpec s.olds) nw.spec ho hs0 (by omega)
+          omega
+      · rw [hn] at hup ⊢
+        cases hnew : s.new with
+        | none =>
+          have e := h2 hnew
+          have c := (created_noLB s h hnew hg).2
+          rw [hnew] at hup
+          simp only [optSpec] at hup ⊢
+          omega
+        | some r =>
+          have e := h1 r hnew
+          rw [hnew] at hup
+          simp only [optSpec] at hup
+          omega
+    · left; exact hup
+
+/-- **C17 (iii), inside the lower-bound region** the total exceeds `replicas + maxSurge` by at most the
+    one pod of the created new RS. -/
+theorem c17_iii_lowerBound (s : State) (h : inv s = true) (hsc : inScope s = true) (hn : s.new = none) :
+    oldTotal s + newSpec (post s) ≤ max (s.replicas + maxSurgeV s) (oldTotal s + 1) := by
+  obtain ⟨nw, h1, h2, hc⟩ := post_summary s hsc
+  have hs0 := maxSurgeV_nonneg s h
+  have ho := sumSpec_nonneg (inv_olds s h)
+  have c := created_LB s h
+  have e := h2 hn
+  simp only [oldTotal, newSpec] at *
+  rcases hc with ⟨rn, hn', _, hs, _, _, hne⟩ | ⟨hn', _, he⟩
+  · rw [hn']; simp only [optSpec]
+    by_cases hlt : nw.spec < newTarget s (sumSpec s.olds) nw.spec
+    · have := newTarget_surge s _ _ ho hs0 hlt; omega
+    · have hR := inv_replicas s h
+      have tg := newTarget_ge s (sumSpec s.olds) nw.spec (limit_bounds s hR).2
+      have cs := created_size s h
+      omega
+  · rw [hn']; simp only [optSpec]; omega
+
 end RV.Props.C17
